@@ -43,7 +43,7 @@ def hashseeds(tier):
 
 def bounds(tier):
     if tier == 'quick':
-        return {'attributes': 4, 'orders': 'None,int,all 24 permutations', 'schedules': 'all linear extensions (trees <= 4 nodes)',
+        return {'attributes': '4 (all orders) + all 1024 graphs on 5 attributes with 6 orders (edges presentation, generic values)', 'orders': 'None,int,all 24 permutations', 'schedules': 'all linear extensions (trees <= 4 nodes)',
                 'value_classes': VCLASSES_QUICK, 'presentations': S.PRESENTATIONS, 'size_patterns': 2}
     return {'attributes_full': 4, 'attributes_5': 'all 1024 graphs x 122 orders x presentations edges/maximal x 3 value classes (hash seed 0 only)',
             'schedules': 'all linear extensions for trees <= 4 nodes; library order / reversed tie-break / leaves-first for 5-node trees',
@@ -59,6 +59,11 @@ def jobs(tier, seed):
         masks = list(range(1 << npairs))
         for i in range(0, len(masks), 4):
             out.append({'k': k, 'masks': masks[i:i + 4], 'pres': S.PRESENTATIONS, 'vclasses': vcl, 'seed': seed})
+    if tier == 'quick':
+        # all 1024 graphs on 5 attributes (chordless 5-cycles need fill-in between fill-in neighbours) with a small order menu
+        masks = list(range(1 << 10))
+        for i in range(0, len(masks), 64):
+            out.append({'k': 5, 'masks': masks[i:i + 64], 'pres': ['edges'], 'vclasses': ['generic'], 'seed': seed, 'sizes': ['main'], 'orders': 'some'})
     if tier == 'thorough' and os.environ.get('PYTHONHASHSEED', '0') == '0':
         masks = list(range(1 << 10))
         for i in range(0, len(masks), 8):
@@ -166,7 +171,7 @@ def some_schedules(model, msgs, deps):
     return out
 
 
-def explore_structure(acc, k, mask, pres, sizes_name, vclasses, seed, only=None):
+def explore_structure(acc, k, mask, pres, sizes_name, vclasses, seed, only=None, orders_mode='all'):
     """all orders x schedules x value classes for one (graph, presentation, size pattern).
     `only` restricts to a single (order, vclass, schedule) for replay."""
     from mbi import Domain, GraphicalModel
@@ -189,7 +194,10 @@ def explore_structure(acc, k, mask, pres, sizes_name, vclasses, seed, only=None)
             assert O.close(joint, j2, 1e-6, 1e-9 * total), 'oracle self-check: constant shift changed the reference'
             joint = j2  # the result must equal the UNSHIFTED distribution
         refs[vc] = (pots, joint, total)
-    orders = [None, 2] + [list(p) for p in itertools.permutations(attrs)]
+    if orders_mode == 'some' and only is None:
+        orders = [None, 2, list(attrs), list(reversed(attrs)), attrs[2:] + attrs[:2], attrs[1::2] + attrs[0::2]]
+    else:
+        orders = [None, 2] + [list(p) for p in itertools.permutations(attrs)]
     seen_trees = set()
     for order in orders:
         if only is not None and only['order'] != order:
@@ -259,7 +267,7 @@ def run_job(job):
             for sizes_name in job.get('sizes', ['main', 'one']):
                 if sizes_name == 'one' and pres not in ('edges', 'maximal', 'nested'):
                     continue
-                cl = explore_structure(acc, k, mask, pres, sizes_name, job['vclasses'], job['seed'])
+                cl = explore_structure(acc, k, mask, pres, sizes_name, job['vclasses'], job['seed'], orders_mode=job.get('orders', 'all'))
         acc.sample({'k': k, 'edges': S.graph_by_mask(k, mask), 'presentation': 'nested', 'cliques': S.present(S.ATTRS[:k], S.graph_by_mask(k, mask), 'nested'),
                     'orders': 'None, 2, all permutations', 'value_classes': job['vclasses']})
     return acc
